@@ -256,8 +256,14 @@ func run(r *hk.Run) {
 			valid = append(valid, roundtrip("directed", []unit{mkUnit(uint16(r.Rng.Next()), 2), mkUnit(id, n)}))
 		}
 	}
-	for _, cnt := range []int{0, 1, 2, 10, 50} {
-		for rep := 0; rep < r.N(3, 12); rep++ {
+	// 17 .. 300 units: the list has no maximum of its own (only the element length bounds it), so a result
+	// container sized from any "usual" count must not be overrun
+	for _, cnt := range []int{0, 1, 2, 10, 50, 17, 33, 65, 129, 257, 300} {
+		reps := r.N(3, 12)
+		if cnt > 50 || cnt == 17 || cnt == 33 {
+			reps = 2
+		}
+		for rep := 0; rep < reps; rep++ {
 			var us []unit
 			for i := 0; i < cnt; i++ {
 				id := uint16(r.Rng.Next())
